@@ -26,10 +26,12 @@ import (
 	"go/printer"
 	"go/token"
 	"os"
+	"os/exec"
 	"path/filepath"
 	"sort"
 	"strconv"
 	"strings"
+	"sync"
 
 	"verif/harness/schemagen"
 )
@@ -177,7 +179,15 @@ func (b *Batch) WriteServiceGlue() error {
 			for k, gs := range gss {
 				sv := idl[k]
 				if len(gs.Methods) != len(sv.Functions) {
-					return fmt.Errorf("%s: interface %s has %d methods, service %s has %d functions", path, gs.Iface, len(gs.Methods), sv.QName(), len(sv.Functions))
+					var gm, im []string
+					for _, m := range gs.Methods {
+						gm = append(gm, m.Names[0].Name)
+					}
+					for _, fn := range sv.Functions {
+						im = append(im, fn.Name)
+					}
+					return fmt.Errorf("%s: the generated interface %s has the methods %v, but service %s keeps the functions %v (functions annotated streaming.mode are removed, all others generated, in order)",
+						path, gs.Iface, gm, sv.QName(), im)
 				}
 				if gs.ClientFac == "" {
 					return fmt.Errorf("%s: client factories do not pair with the service interfaces", path)
@@ -300,4 +310,68 @@ func (b *Batch) WriteServiceGlue() error {
 	reg.Write(regBody.Bytes())
 	reg.WriteString("}\n")
 	return os.WriteFile(filepath.Join(b.Root, "c08_services.go"), reg.Bytes(), 0o644)
+}
+
+// GenerateWith is Generate with the IDL text of a unit supplied by the caller (C08: services whose
+// source contains functions that the backend removes).
+func (b *Batch) GenerateWith(render func(u *Unit) map[string]string) error {
+	empty := filepath.Join(b.Root, "cwd")
+	if err := os.MkdirAll(empty, 0o755); err != nil {
+		return err
+	}
+	type res struct {
+		u   *Unit
+		out string
+		err error
+	}
+	results := make([]res, len(b.Units))
+	sem := make(chan struct{}, b.Jobs)
+	var wg sync.WaitGroup
+	for i, u := range b.Units {
+		wg.Add(1)
+		go func(i int, u *Unit, files map[string]string) {
+			defer wg.Done()
+			sem <- struct{}{}
+			defer func() { <-sem }()
+			idlDir := filepath.Join(b.Root, "idl", u.Key)
+			if err := os.MkdirAll(idlDir, 0o755); err != nil {
+				results[i] = res{u, "", err}
+				return
+			}
+			for name, text := range files {
+				if err := os.WriteFile(filepath.Join(idlDir, name), []byte(text), 0o644); err != nil {
+					results[i] = res{u, "", err}
+					return
+				}
+			}
+			outDir := filepath.Join(b.Root, "gen", u.Key)
+			opts := "package_prefix=drv/gen/" + u.Key
+			if u.Options != "" {
+				opts = u.Options + "," + opts
+			}
+			cmd := exec.Command(b.Thriftgo, "-r", "-g", "go:"+opts, "-o", outDir,
+				filepath.Join(idlDir, u.Prog.Files[0].Name+".thrift"))
+			cmd.Dir = empty
+			cmd.Env = goEnv()
+			out, err := cmd.CombinedOutput()
+			if err == nil {
+				if _, serr := os.Stat(outDir); serr != nil {
+					err = fmt.Errorf("thriftgo exited 0 but wrote nothing")
+				}
+			}
+			results[i] = res{u, string(out), err}
+		}(i, u, render(u))
+	}
+	wg.Wait()
+	var kept []*Unit
+	for _, r := range results {
+		if r.err != nil {
+			b.Rejected = append(b.Rejected, Rejected{r.u, r.out + "\n" + r.err.Error()})
+			os.RemoveAll(filepath.Join(b.Root, "gen", r.u.Key))
+			continue
+		}
+		kept = append(kept, r.u)
+	}
+	b.Units = kept
+	return nil
 }
